@@ -285,6 +285,49 @@ func c02R2(p *Prog, r *Report) {
 // ---- R3 -----------------------------------------------------------------------------------
 
 func c02R3(p *Prog, r *Report) {
+	missingStart := map[bool]string{} // auto? -> name of the start function that was not found
+	siteJudged := map[bool]bool{}
+	// judgeSite: the scan start as computed by the call `call` (in a pass), when the callee takes
+	// arguments besides its receiver: analysed for the constants this call passes
+	judgeSite := func(pass *ssa.Function, call *ssa.Call, auto bool) {
+		h := call.Call.StaticCallee()
+		if h == nil || !isModuleFn(h) || h.Blocks == nil || len(h.Params) < 2 || len(h.Params) != len(call.Call.Args) {
+			return
+		}
+		env := map[ssa.Value]lat{}
+		var how []string
+		for k, a := range call.Call.Args {
+			if cst, isC := a.(*ssa.Const); isC && cst.Value != nil {
+				if l := (&sccpResult{}).Get(cst); l.isConst() {
+					env[h.Params[k]] = l
+					how = append(how, h.Params[k].Name()+"="+cst.Value.ExactString())
+				}
+			}
+		}
+		if len(env) != len(h.Params)-1 {
+			r.Unk("C02.R3", FuncName(pass)+" scan start", p.InstrPos(call), "the scan start is computed by "+FuncName(h)+" with arguments that are not all constants: not decided")
+			siteJudged[auto] = true
+			return
+		}
+		r.Fn(FuncName(h))
+		siteJudged[auto] = true
+		dTerms, desc, msg := scanStartDelayEnv(p, r, h, 0, env)
+		good := msg == ""
+		if good {
+			nsamp := polySym(h.Params[0].Name() + ".NSamples")
+			hasN := false
+			for _, t := range dTerms {
+				hasN = hasN || t.Equal(nsamp)
+			}
+			switch {
+			case !auto && !(len(dTerms) == 1 && hasN):
+				good, msg = false, fmt.Sprintf("scan starts at %s, want LastTrigger - firstFrameIndex + NSamples (or NPresamples if smaller): a later start skips samples that were never searched, an earlier one violates the dead time", desc)
+			case auto && !hasN:
+				good, msg = false, fmt.Sprintf("auto scan starts at %s, want LastTrigger - firstFrameIndex + max(NSamples, autoDelay)", desc)
+			}
+		}
+		r.Check(good, "C02.R3", FuncName(pass)+" scan start", p.InstrPos(call), "max(hold-off start, NPresamples) as computed by "+FuncName(h)+"("+strings.Join(how, ", ")+")", msg)
+	}
 	// scan start functions
 	for _, spec := range []struct {
 		name string
@@ -292,13 +335,12 @@ func c02R3(p *Prog, r *Report) {
 	}{{"firstPotentialTriggerFrame", false}, {"firstPotentialAutoTriggerFrame", true}} {
 		fn := p.Func("", "DataStreamProcessor", spec.name)
 		if fn == nil {
-			r.Unk("C02.R3", spec.name, "-", "name-keyed anchor not found")
+			missingStart[spec.auto] = spec.name
 			continue
 		}
 		r.Fn(FuncName(fn))
 		if len(fn.Params) > 1 {
-			r.Unk("C02.R3", FuncName(fn)+" scan start", p.Pos(fn.Pos()), "the scan start is computed by a function that takes parameters besides its receiver (one function serving several passes): what it returns for each caller is not decided")
-			continue
+			continue // one function serving several passes: judged per call site below
 		}
 		dTerms, desc, msg := scanStartDelay(p, r, fn, 0)
 		good := msg == ""
@@ -361,6 +403,7 @@ func c02R3(p *Prog, r *Report) {
 			for _, e := range phi.Edges {
 				if call, ok := e.(*ssa.Call); ok && call.Call.StaticCallee() != nil && call.Call.StaticCallee().Name() == "firstPotentialTriggerFrame" {
 					startOK = true
+					judgeSite(fn, call, false)
 				}
 			}
 			if name == "edgeTriggerComputeAppend" {
@@ -417,6 +460,14 @@ func c02R3(p *Prog, r *Report) {
 					for v, id := range c.ids {
 						if ph, ok := v.(*ssa.Phi); ok && fmt.Sprintf("phi#%d", id) == phiSym {
 							c02CutAtTested(p, r, fn, c, ph)
+							for k, e := range ph.Edges {
+								if ph.Block().Dominates(ph.Block().Preds[k]) {
+									continue
+								}
+								if call, ok := stripConv(e).(*ssa.Call); ok {
+									judgeSite(fn, call, true)
+								}
+							}
 						}
 					}
 				}
@@ -424,6 +475,11 @@ func c02R3(p *Prog, r *Report) {
 			}
 		})
 		r.Check(found, "C02.R3", FuncName(fn)+" scan end", p.Pos(fn.Pos()), "loop runs while t+NSamples-NPresamples < len(rawData)", "the auto-trigger loop is not bounded by t + NSamples - NPresamples < len(rawData)")
+	}
+	for auto, name := range missingStart {
+		if !siteJudged[auto] {
+			r.Unk("C02.R3", name, "-", "name-keyed anchor not found")
+		}
 	}
 }
 
@@ -1024,6 +1080,23 @@ func c02R8(p *Prog, r *Report) {
 
 // maxTerms: v as the largest of a list of values (a builtin max, nested, or just v).
 func maxTerms(c *PolyCtx, v ssa.Value) []Poly {
+	v = sccpLive(c, v)
+	// a helper of the same receiver that returns the larger of several values
+	if call, ok := v.(*ssa.Call); ok {
+		if h := call.Call.StaticCallee(); h != nil && isModuleFn(h) && h.Blocks != nil && !call.Call.IsInvoke() && len(call.Call.Args) == 1 && len(h.Params) == 1 && minMaxKind(h) == "" {
+			if ret := singleReturnInstr(h); ret != nil && len(ret.Results) == 1 {
+				if _, isMax := minMaxArgs(ret.Results[0], "max"); isMax {
+					hc := NewPolyCtx(h)
+					tr, _ := callTranslator(h, call, c, hc)
+					var out []Poly
+					for _, t := range maxTerms(hc, ret.Results[0]) {
+						out = append(out, tr(t))
+					}
+					return out
+				}
+			}
+		}
+	}
 	if call, ok := v.(*ssa.Call); ok {
 		isMax := false
 		if b, isB := call.Call.Value.(*ssa.Builtin); isB && b.Name() == "max" {
@@ -1048,7 +1121,15 @@ func maxTerms(c *PolyCtx, v ssa.Value) []Poly {
 // NPresamples`; one return of the builtin max; delegation of the whole computation to a helper
 // method of the same receiver that takes D as its parameter.  msg != "" reports a violation.
 func scanStartDelay(p *Prog, r *Report, fn *ssa.Function, depth int) (dTerms []Poly, desc, msg string) {
+	return scanStartDelayEnv(p, r, fn, depth, nil)
+}
+
+// scanStartDelayEnv: as scanStartDelay, for the function called with the constant arguments env.
+func scanStartDelayEnv(p *Prog, r *Report, fn *ssa.Function, depth int, env map[ssa.Value]lat) (dTerms []Poly, desc, msg string) {
 	c := NewPolyCtx(fn)
+	if len(env) > 0 {
+		c.res = sccp(fn, env)
+	}
 	recv := fn.Params[0].Name()
 	hold := polySym(recv + ".LastTrigger").Sub(polySym(recv + ".stream.DataSegment.firstFrameIndex"))
 	npre := polySym(recv + ".NPresamples")
@@ -1247,6 +1328,29 @@ func c02HelperSyncs(c *PolyCtx, call *ssa.Call, small, big, root string, wantVal
 }
 
 // maxTermVals: like maxTerms, as values.
+// sccpLive: v, or - when the function is analysed under constant assumptions - the one input of
+// the phi v that can arrive.
+func sccpLive(c *PolyCtx, v ssa.Value) ssa.Value {
+	for i := 0; i < 4; i++ {
+		ph, ok := v.(*ssa.Phi)
+		if !ok || c == nil || c.res == nil || c.res.fn != ph.Parent() {
+			return v
+		}
+		live, n := -1, 0
+		for k := range ph.Edges {
+			if c.res.EdgeExecutable(ph.Block().Preds[k], ph.Block()) {
+				live = k
+				n++
+			}
+		}
+		if n != 1 {
+			return v
+		}
+		v = ph.Edges[live]
+	}
+	return v
+}
+
 func maxTermVals(v ssa.Value) []ssa.Value {
 	if args, ok := minMaxArgs(v, "max"); ok {
 		var out []ssa.Value
